@@ -1112,6 +1112,9 @@ Definition spec_step (now : Z) (name : bytes) (args : list bytes) (oracle : list
         match look_zset (a 0%nat) d with
         | LWrong => err d
         | lk => let '(z, e) := match lk with LVal z e => (z, e) | _ => ([], 0) end in
+                if (match fm_get (a 2%nat) z with Some s => score_add_nan s dl | None => false end)
+                then err d   (* resulting score is not a number (NaN) *)
+                else
                 match (match fm_get (a 2%nat) z with Some s => score_add s dl | None => Some dl end) with
                 | None => SUnjudged
                 | Some r => SR (sput (a 0%nat) (SvZSet (fst (fm_set (a 2%nat) r z))) e d) (SBulk (format_score r))
